@@ -17,7 +17,7 @@ def gen(maxlen, simulate=None, seed=0):
 
 
 def validate(path):
-    return tlc_must("HTranslateTrace", cfg(init="TInit", next_="TNext", constraints=["AtEnd"], constants={"MaxLen": 99}),
+    return tlc_must("HTranslateTrace", cfg(init="TInit2", next_="TNext", constraints=["AtEnd"], constants={"MaxLen": 99}),
                     env={"TRACE_FILE": path}, workers=1, name="val", timeout=3000, mem="3g")
 
 
@@ -28,7 +28,7 @@ def run(tier, seed, selftest=False, replay=None):
     if replay:
         cs = read_json(os.path.join(replay, "case.json"))["case"]
         lang, sd = cs["id"].split("/")[0], int(cs["id"].split("/")[1])
-        hists = [[{"op": s["op"], "tr": s["tr"], "prog": s["prog"]} for s in cs["steps"]]]
+        hists = [[{"op": s["op"], "tr": s["tr"], "prog": s["prog"]} for s in cs["steps"] if not s.get("ref")]]
         jobs = [(lang, [sd])]
     else:
         if tier == "quick":
@@ -97,7 +97,8 @@ def run(tier, seed, selftest=False, replay=None):
                                                                                  2 if tier == "quick" else 10),
         "exhaustive": False,
     }, time.time() - t0, len(verdict.violations),
-        ["package name and translator options are fixed per run", "programs are sampled (seeds); histories are exhaustive up to the stated length"])
+        ["translator options are fixed per run; two package names, re-targeted on live translators as the driver does",
+         "every history is also compared with the texts taken at the start of its process (fresh translators), so state leaking across histories is seen", "programs are sampled (seeds); histories are exhaustive up to the stated length"])
     return rc
 
 
